@@ -401,6 +401,51 @@ func (e *BitEval) Eval(v ssa.Value) []Alt {
 		// merge identical alternatives
 		return dedupAlts(out)
 	case *ssa.Call:
+		// encoding/binary: Uint16/32/64 of a byte order on (a constant-offset tail or window of) a named slice is
+		// the concatenation of its octets in that order
+		if f := x.Common().StaticCallee(); f != nil && len(x.Common().Args) == 2 {
+			n, big := 0, true
+			switch f.String() {
+			case "(encoding/binary.bigEndian).Uint16":
+				n = 2
+			case "(encoding/binary.bigEndian).Uint32":
+				n = 4
+			case "(encoding/binary.bigEndian).Uint64":
+				n = 8
+			case "(encoding/binary.littleEndian).Uint16":
+				n, big = 2, false
+			case "(encoding/binary.littleEndian).Uint32":
+				n, big = 4, false
+			case "(encoding/binary.littleEndian).Uint64":
+				n, big = 8, false
+			}
+			if n > 0 {
+				base, lo := x.Common().Args[1], int64(0)
+				okB := true
+				if sl, isSl := base.(*ssa.Slice); isSl {
+					base = sl.X
+					if sl.Low != nil {
+						lo, okB = constInt(sl.Low)
+					}
+					if sl.High != nil {
+						if hi, isK := constInt(sl.High); !isK || hi-lo < int64(n) {
+							okB = false
+						}
+					}
+				}
+				if prm, isP := base.(*ssa.Parameter); isP && okB {
+					var bv BV
+					for i := 0; i < n; i++ {
+						k := lo + int64(n-1-i) // least significant octet first for big endian
+						if !big {
+							k = lo + int64(i)
+						}
+						bv = append(bv, bvSrc(fmt.Sprintf("%s[%d]", prm.Name(), k), 8)...)
+					}
+					return one(bv)
+				}
+			}
+		}
 		if f := x.Common().StaticCallee(); f != nil && e.P.InModule(f) && e.Depth < 6 && len(f.Blocks) > 0 && f.Signature.Results().Len() == 1 {
 			if alts, ok := e.inline(x, f); ok {
 				return alts
